@@ -212,7 +212,7 @@ func runC05(c *Ctx) {
 		"LessThan":     {t, "cell{val((" + cmp + " < 0))}"},
 		"GreaterThan":  {t, "cell{val((" + cmp + " > 0))}"},
 		"EqualEqual":   {f, "cell{val((" + cmp + " == 0))}"},
-		"BangEqual":    {f, "cell{*Not(&val((" + cmp + " == 0)))}"},
+		"BangEqual":    {f, "cell{val((" + cmp + " != 0))}"},
 		"LessEqual":    {f, "cell{val((" + cmp + " <= 0))}"},
 		"GreaterEqual": {f, "cell{val((" + cmp + " >= 0))}"},
 		"Plus":         {"cell{val((String(&L.Value) + String(&R.Value)))}", "cell{val((" + aL + " + " + aR + "))}"},
@@ -220,6 +220,8 @@ func runC05(c *Ctx) {
 		"Multiply":     {"cell{val((" + aL + " * " + aR + "))}"},
 		"Divide":       {"cell{val((" + aL + " / " + aR + "))}"},
 		"Percent":      {"cell{val((int(" + aL + ") % int(" + aR + ")))}"},
+		"Tilde":        {t, "cell{val((*regexp.Regexp).MatchString(regexp.Compile(*R.Value.Str)#0, String(&L.Value)))}"},
+		"BangTilde":    {f, "cell{val(!(*regexp.Regexp).MatchString(regexp.Compile(*R.Value.Str)#0, String(&L.Value)))}"},
 		"Equal":        {"evalAssignment(e, expr, L, R)#0"},
 		"Dot":          {"GetMember(&L.Value, R.Value)#0", "cell{val(nil) with {Str: &String(&R.Value), Num: R.Value.Num, ParentObj: &L.Value}}"},
 		"LSquare":      {"GetMember(&L.Value, R.Value)#0", "cell{val(nil) with {Str: &String(&R.Value), Num: R.Value.Num, ParentObj: &L.Value}}"},
@@ -237,6 +239,8 @@ func runC05(c *Ctx) {
 			rule = "R2"
 		case "AmpAmp", "PipePipe":
 			rule = "R5"
+		case "Tilde", "BangTilde":
+			rule = "R7"
 		}
 		miss, extra := diffSets(got[op], setOf(oracle[op]))
 		if len(miss)+len(extra) == 0 {
@@ -251,7 +255,7 @@ func runC05(c *Ctx) {
 			continue
 		}
 		switch op {
-		case "Is", "Tilde", "BangTilde":
+		case "Is":
 		default:
 			c.undecided("R1", "operator "+op, uni[op], "the parser can produce this operator but the oracle has no row for it")
 		}
@@ -602,35 +606,7 @@ func c05Regex(c *Ctx, eb *ssa.Function) {
 	c.check(recv == "regexp.Compile(*R.Value.Str)#0", "R7", "match-uses-this-compile", p.InstrPos(match), "the regexp matched is the one compiled in this evaluation", "MatchString is called on "+recv+", not on the regexp compiled from this evaluation's right operand (a cached or stale pattern)")
 	c.check(subj == "String(&L.Value)", "R7", "match-subject", p.InstrPos(match), "matched against String(left)", "the subject of the match is "+subj+", not the left operand's string form")
 	c.check(dominatesInstr(compile, match), "R7", "compile-before-match", p.InstrPos(match), "compile dominates match", "the match is not dominated by the compile")
-	// negation: the !~ result is Not(result of ~)
-	for _, oc := range opCases(p, eb, []string{"Tilde", "BangTilde", "other"}) {
-		if len(oc.Ops) == 1 && oc.Ops[0] == "BangTilde" && strings.Contains(oc.Value, "Not(") {
-			c.ok("R7", "negation", p.InstrPos(oc.Ret), "!~ returns Not(match result)")
-		}
-	}
-	// the result value: true exactly when MatchString returned true
-	F := FactsOf(eb)
-	okRes := false
-	allInstrs(eb, func(in ssa.Instruction) {
-		st, ok := in.(*ssa.Store)
-		if !ok {
-			return
-		}
-		r := abbrevBinary(p.Render(st.Val))
-		if r != "val(true)" && r != "val(false)" {
-			return
-		}
-		for f := range F.At(st.Block()) {
-			if f.cond == ssa.Value(match) {
-				if (r == "val(true)") == f.truth {
-					okRes = true
-				} else {
-					okRes = false
-				}
-			}
-		}
-	})
-	c.check(okRes, "R7", "result-follows-match", p.InstrPos(match), "the result is true exactly when the pattern matched", "the value stored as the ~ result does not follow MatchString's verdict")
+	// the result values (~: MatchString's verdict, !~: its negation; same operand: true / false) are rows of the operator table above
 }
 
 func valueTagNames(p *Program) []string {
@@ -830,7 +806,7 @@ func c05Coercions(c *Ctx) {
 		F := FactsOf(cmpFn)
 		for _, r := range returnsOf(cmpFn) {
 			k, isK := constInt(effectiveResults(r)[0])
-			if !isK {
+			if !isK || !EKOf(p).KindsAt(effectiveResults(r)[1], F.At(r.Block())).Has(KNil) {
 				continue
 			}
 			// facts on the edge(s): blocks built from && chains: take the facts holding in the return block
@@ -840,7 +816,14 @@ func c05Coercions(c *Ctx) {
 			}
 			sort.Strings(gs)
 			s := strings.Join(gs, " && ")
-			if strings.Contains(s, "ValueNil") && !strings.Contains(s, "asFloat64") {
+			// the null arms are decided before the operands are coerced
+			afterCoercion := false
+			for _, call := range callsIn(cmpFn) {
+				if staticCalleeIs(call, "(*lang.Value).asFloat64") && call.Block().Dominates(r.Block()) {
+					afterCoercion = true
+				}
+			}
+			if strings.Contains(s, "ValueNil") && !strings.Contains(s, "asFloat64") && !afterCoercion {
 				nulls[s] = fmt.Sprint(k)
 			}
 		}
@@ -878,19 +861,12 @@ func c05Coercions(c *Ctx) {
 	// Not: true iff not truthy
 	notFn := p.LangFunc("(*Value).Not")
 	if notFn != nil {
-		got := map[string]string{}
-		allInstrs(notFn, func(in ssa.Instruction) {
-			st, ok := in.(*ssa.Store)
-			if !ok {
-				return
-			}
-			for f := range FactsOf(notFn).At(st.Block()) {
-				if p.Render(f.cond) == "(*lang.Value).isTruthy(v)" {
-					got[fmt.Sprint(f.truth)] = p.Render(st.Val)
-				}
-			}
-		})
-		c.check(got["true"] == "lang.NewValue(false)" && got["false"] == "lang.NewValue(true)", "R8", "Not", p.Pos(notFn.Pos()), "Not(v) = !isTruthy(v)", fmt.Sprintf("Not maps truthy -> %s, falsy -> %s", got["true"], got["false"]))
+		// (the renderer folds `if t { x = NewValue(false) } else { x = NewValue(true) }` into NewValue(!t))
+		var got []string
+		for _, rc := range p.successResults(notFn) {
+			got = append(got, rc.Value)
+		}
+		c.check(len(got) == 1 && got[0] == "&lang.NewValue(!(*lang.Value).isTruthy(v))", "R8", "Not", p.Pos(notFn.Pos()), "Not(v) = a fresh boolean !isTruthy(v)", "Not returns {"+strings.Join(got, " ; ")+"}; documented: a fresh value NewValue(!isTruthy(v))")
 	}
 }
 
